@@ -66,3 +66,20 @@ Example C04_example :
      = [ok (VL []); ok (vbool true); ok (vbool false); ok (vbool false); ok (vbool true); ok (vbool true);
         ok (vbool false); ok (vbool false); ok (vbool true)].
 Proof. vm_compute. split; reflexivity. Qed.
+
+(* The guard op_ok (rules of exactly the declared arity) is needed - known finding C04/overlong-rules-share-a-link:
+   a grouping rule with an extra field is accepted and linked by its declared-arity prefix, so [alice;admin] and
+   [alice;admin;data2] share ONE link; removing the longer rule takes the link away although the shorter rule stays:
+   alice is refused, a freshly built enforcer on the same rules allows her.  Replayed on the implementation by the
+   check on every run. *)
+Theorem C04_overlong_rules_share_a_link_refuted :
+  exists k db ops req,
+    let s := fst (run k (init k db) ops) in
+    forallb (op_ok k) ops = false /\
+    snd (enforce_ex_m k s req) <> snd (enforce_ex_m k (freshen k s) req).
+Proof.
+  exists k_rbac, [(0%N, [1006; 1008; 1011]%N); (1%N, [1003; 1006]%N)],
+         [OLoad; OAdd 1 [1003; 1006; 1009]%N; ORemove 1 [1003; 1006; 1009]%N], [1003; 1008; 1011]%N.
+  vm_compute. split; [reflexivity|discriminate].
+Qed.
+Print Assumptions C04_overlong_rules_share_a_link_refuted.
